@@ -6,6 +6,7 @@ package main
 
 import (
 	"fmt"
+	"io"
 	"strings"
 	"sync"
 	"time"
@@ -55,6 +56,11 @@ func sub(tq ...interface{}) body {
 	return b
 }
 func unsub(ts ...string) body { return body{kind: 'u', topics: ts} }
+func pubr(topic string, payload string, qos int) body {
+	b := pub(topic, payload, qos)
+	b.msg.Retain = true
+	return b
+}
 func pub(topic string, payload string, qos int) body {
 	return body{kind: 'p', msg: packet.Message{Topic: topic, Payload: []byte(payload), QOS: packet.QOS(qos)}}
 }
@@ -73,6 +79,7 @@ type scn struct {
 	plans   []connPlan
 	planGen func(k int) connPlan
 	script  func(s *scn)
+	noProbe bool // no liveness probe after the script (the script ends with the service deliberately cut off)
 	noMon   bool // concurrent API calls without the harness-side ordering: direct clauses only
 
 	mu       sync.Mutex
@@ -87,8 +94,11 @@ type scn struct {
 	leaks    []string
 	curPlan  connPlan
 	directs  map[string]string // extra clauses evaluated by a script on the implementation alone: clause -> "" (ok) | what failed
-	offGate  string            // the first OfflineCallback blocks until this gate opens
-	envSlow  bool              // a timeout expired although the peer of that attempt answers promptly: the machine was too slow
+	errGate  string            // the first ErrorCallback(io.EOF) (connection lost) blocks until this gate opens
+	errGated bool
+	running  bool   // a Start returned true and no Stop returned true since
+	offGate  string // the first OfflineCallback blocks until this gate opens
+	envSlow  bool   // a timeout expired although the peer of that attempt answers promptly: the machine was too slow
 	discSent bool
 
 	svc    *client.Service
@@ -372,7 +382,20 @@ func (s *scn) setup() {
 			s.waitGate(s.offGate)
 		}
 	}
-	sv.ErrorCallback = func(error) { s.mu.Lock(); s.errCb++; s.mu.Unlock() }
+	sv.ErrorCallback = func(err error) {
+		s.mu.Lock()
+		s.errCb++
+		first := err == io.EOF && s.errGate != "" && !s.errGated
+		if first {
+			s.errGated = true
+		}
+		s.mu.Unlock()
+		if first {
+			// the client's error callback reports the lost connection BEFORE the service closes its kill channel:
+			// holding it here keeps the dispatcher running on a client that is already dead
+			s.waitGate(s.errGate)
+		}
+	}
 	cfg := client.NewConfig("mem://x")
 	cfg.Dialer = &recDialer{s}
 	cfg.KeepAlive = "0s"
@@ -403,9 +426,23 @@ func (s *scn) start() bool {
 	s.lockAPI()
 	defer s.unlockAPI()
 	s.ev("startcall")
-	ok := s.svc.Start(s.cfg)
-	s.ev("startret %s", hx.B01(ok))
-	return ok
+	done := make(chan bool, 1)
+	go func() { done <- s.svc.Start(s.cfg) }()
+	select {
+	case ok := <-done:
+		s.ev("startret %s", hx.B01(ok))
+		if ok {
+			s.mu.Lock()
+			s.running = true
+			s.mu.Unlock()
+		}
+		return ok
+	case <-time.After(waitBound):
+		s.mu.Lock()
+		s.fails = append(s.fails, "start-did-not-return")
+		s.mu.Unlock()
+		return false
+	}
 }
 
 func (s *scn) stop(clear bool) bool {
@@ -420,6 +457,11 @@ func (s *scn) stop(clear bool) bool {
 	select {
 	case ok = <-done:
 		s.ev("stopret %s", hx.B01(ok))
+		if ok {
+			s.mu.Lock()
+			s.running = false
+			s.mu.Unlock()
+		}
 	case <-time.After(waitBound):
 		s.mu.Lock()
 		s.fails = append(s.fails, "stop-did-not-return")
@@ -441,20 +483,51 @@ func (s *scn) cmd(b body) int {
 	s.ev("cmdcall %d %s", n, b.text())
 	t0 := time.Now()
 	var f client.GenericFuture
-	switch b.kind {
-	case 's':
-		f = s.svc.SubscribeMultiple(b.subs)
-	case 'u':
-		f = s.svc.UnsubscribeMultiple(b.topics)
-	default:
-		m := b.msg
-		f = s.svc.PublishMessage(&m)
+	ret := make(chan client.GenericFuture, 1)
+	go func() {
+		// every second call with a single element goes through the single-element API
+		single := n%2 == 0
+		switch b.kind {
+		case 's':
+			if single && len(b.subs) == 1 {
+				ret <- s.svc.Subscribe(b.subs[0].Topic, b.subs[0].QOS)
+			} else {
+				ret <- s.svc.SubscribeMultiple(b.subs)
+			}
+		case 'u':
+			if single && len(b.topics) == 1 {
+				ret <- s.svc.Unsubscribe(b.topics[0])
+			} else {
+				ret <- s.svc.UnsubscribeMultiple(b.topics)
+			}
+		default:
+			if single {
+				ret <- s.svc.Publish(b.msg.Topic, b.msg.Payload, b.msg.QOS, b.msg.Retain)
+			} else {
+				m := b.msg
+				ret <- s.svc.PublishMessage(&m)
+			}
+		}
+	}()
+	select {
+	case f = <-ret:
+	case <-time.After(waitBound):
+		s.mu.Lock()
+		s.fails = append(s.fails, fmt.Sprintf("api-call-%d-did-not-return", n))
+		s.mu.Unlock()
+		s.direct("queue", fmt.Sprintf("call-%d-blocked-longer-than-QueueTimeout(%v)", n, s.qtmo))
+		return n
 	}
 	el := time.Since(t0)
-	if el >= s.qtmo && f.Wait(2*time.Millisecond) == future.ErrCanceled {
+	cancelledAtReturn := f.Wait(2*time.Millisecond) == future.ErrCanceled
+	if el >= s.qtmo && cancelledAtReturn {
 		s.ev("qtimeout %d", n)
 	} else {
 		s.ev("cmdret %d", n)
+	}
+	// QueueTimeout: a caller waits that long for room before it gives up, and not much longer
+	if el > s.qtmo+time.Second {
+		s.direct("queue", fmt.Sprintf("call-%d-took-%v-QueueTimeout-is-%v", n, el, s.qtmo))
 	}
 	s.wg.Add(1)
 	go func() {
@@ -494,6 +567,13 @@ func (s *scn) run() {
 		s.fails = append(s.fails, "script-did-not-finish")
 		s.mu.Unlock()
 		return
+	}
+	// liveness probe after the scripted steps: a service that is running gets a fresh command through
+	s.mu.Lock()
+	running := s.running
+	s.mu.Unlock()
+	if running && !s.noProbe {
+		s.recovers()
 	}
 	// final quiescence: Stop(true) (false if not running), then every future ever returned must be resolved
 	s.stop(true)
